@@ -4,6 +4,7 @@ pub mod c02;
 pub mod c03;
 pub mod c04;
 pub mod c05;
+pub mod c11;
 pub mod c16;
 pub mod c18;
 pub mod c20;
@@ -16,6 +17,7 @@ pub fn lookup(id: &str) -> Option<&'static dyn Prop> {
         "C03" => &c03::C03,
         "C04" => &c04::C04,
         "C05" => &c05::C05,
+        "C11" => &c11::C11,
         "C16" => &c16::C16,
         "C18" => &c18::C18,
         "C20" => &c20::C20,
